@@ -429,8 +429,8 @@ class ComposedNode(ConfigNode):
     def _propagate_implicit_values(self):
         if '_delete' not in self.__dict__: # happens when unpickling! children are being populated before attributes are set, but its ok since we assume pickled objects are ok anyway, so no need to fix things
             return
-        if self._implicit_delete is None and self._implicit_allow_new is None and self._implicit_safe is None:
-            return
+        # (also when nothing is inherited: the children of a subtree that has been moved - out of a list by !prev, say - still hold
+        # what their former place handed down)
         if self._delete is not None and self._allow_new is not None and self._safe is not None and not (self._safe and self._implicit_safe is False):
             return
 
